@@ -265,8 +265,8 @@ theorem bytePolls_segs (step : LinkSt → ByteItem → LinkSt × Option Out)
         | none => simp only []; exact ih rx' hok'
         | some e => simp only [emitsOf_cons_emit, List.map_cons]; rw [ih rx' hok']
 
-theorem serialPolls_segs (rx : RxSt) (segs : List Seg) (hok : ∀ sg ∈ segs, sg.Ok) :
-    emitsOf (serialPolls ⟨.idle, rx⟩ (segs.flatMap Seg.items)) =
+theorem serialPollsRaw_segs (rx : RxSt) (segs : List Seg) (hok : ∀ sg ∈ segs, sg.Ok) :
+    emitsOf (serialPollsRaw ⟨.idle, rx⟩ (segs.flatMap Seg.items)) =
       (run rx ((Seg.bodies segs).map fromUsart)).1.map .emit :=
   bytePolls_segs serialStep serialStep_byte (fun _ => rfl) rx segs hok
 
@@ -277,5 +277,5 @@ theorem usartPolls_segs (rx : RxSt) (segs : List Seg) (hok : ∀ sg ∈ segs, sg
 
 #print axioms usartPolls_erase
 #print axioms usartPolls_wire
-#print axioms serialPolls_segs
+#print axioms serialPollsRaw_segs
 end Ross
